@@ -269,6 +269,29 @@ func Battery(u Universe, keys []string, sessions []string, extra BatteryExtra) [
 		})
 		qs[len(qs)-1].NoIndex, qs[len(qs)-1].NoWatch = true, true
 	}
+	// node-meta filtered variants
+	for _, rack := range []string{"r1", "r2"} {
+		filter := map[string]string{"rack": rack}
+		add("catalog", "NodesByMeta(rack="+rack+")", func(s *state.Store, ws memdb.WatchSet) (uint64, any, error) {
+			i, r, e := s.NodesByMeta(ws, filter, nil, "")
+			return i, r, e
+		})
+		add("catalog", "ServicesByNodeMeta(rack="+rack+")", func(s *state.Store, ws memdb.WatchSet) (uint64, any, error) {
+			i, r, e := s.ServicesByNodeMeta(ws, filter, nil, "")
+			return i, r, e
+		})
+		add("health", "ChecksInStateByNodeMeta(any,rack="+rack+")", func(s *state.Store, ws memdb.WatchSet) (uint64, any, error) {
+			i, r, e := s.ChecksInStateByNodeMeta(ws, "any", filter, nil, "")
+			return i, r, e
+		})
+		for _, svc := range u.Services {
+			svc := svc
+			add("health", "ServiceChecksByNodeMeta("+svc+",rack="+rack+")", func(s *state.Store, ws memdb.WatchSet) (uint64, any, error) {
+				i, r, e := s.ServiceChecksByNodeMeta(ws, svc, filter, nil, "")
+				return i, r, e
+			})
+		}
+	}
 	for _, gw := range []string{"igw", "tgw", "igw2", "tgw2"} {
 		gw := gw
 		add("gateway", "GatewayServices("+gw+")", func(s *state.Store, ws memdb.WatchSet) (uint64, any, error) {
